@@ -169,3 +169,123 @@ Definition cmp_vecs (L : list param) (v1 v2 : vec) : list bool :=
   six (vec_equal L v1 v2) (vec_less L v1 v2) (vec_less L v2 v1).
 Definition cmp_refs (L : list param) (v1 : vec) (i : Z) (v2 : vec) (j : Z) : list bool :=
   six (ref_equal L v1 i v2 j) (ref_less L v1 i v2 j) (ref_less L v2 j v1 i).
+
+(* ====================================================================================
+   assignment and swap between element references (reference.hpp assign / swap,
+   elementTraits.hpp assign_one / swap_one, parameterTraits.hpp copy / move / swap)
+   ==================================================================================== *)
+(* the source's and the target's memory; [same]: both references point into one vector,
+   every write is then seen by both *)
+Record mm := { m_s : mem; m_d : mem; m_same : bool }.
+Definition wr_d (x : mm) (a : Z) (bs : list Z) : mm :=
+  let md := mwrite (m_d x) a bs in
+  {| m_s := if m_same x then md else m_s x; m_d := md; m_same := m_same x |}.
+Definition wr_s (x : mm) (a : Z) (bs : list Z) : mm :=
+  let ms := mwrite (m_s x) a bs in
+  {| m_s := ms; m_d := if m_same x then ms else m_d x; m_same := m_same x |}.
+
+(* object-wise copy / move assignment of [n] objects of a MANUAL field (std::copy /
+   std::move over the span, or the single assignment of a plain field) *)
+Fixpoint assign_objs (mv : bool) (p : param) (sb db : nat) (x : mm) (sa da : Z) (n : nat) : mm * list ev :=
+  match n with
+  | O => (x, [])
+  | S n' =>
+      let bs := mread (m_s x) sa (Z.to_nat (psz p)) in
+      let x1 := wr_d x da bs in
+      (* a moved-from instrumented object is scribbled (self-move leaves it alone) *)
+      let x2 := if mv && negb (m_same x && (sa =? da)) then wr_s x1 sa (moved_bytes (psz p)) else x1 in
+      let '(x3, evs) := assign_objs mv p sb db x2 (sa + psz p) (da + psz p) n' in
+      (x3, (if mv then EMoveA db da (psz p) sb sa else ECopyA db da (psz p) sb sa) :: evs)
+  end.
+
+(* ElementTraits::assign<UseMove>(source, target) *)
+Definition assign_one (mv : bool) (L : list param) (sb db : nat) (fls fld : list (Z * Z)) (x : mm) (k : nat)
+  : mm * list ev :=
+  match nth k (runs_asg L) RSkip with
+  | RSkip => (x, [])
+  | RManual =>
+      assign_objs mv (nth k L pparam0) sb db x (fst (nth k fls fld0)) (fst (nth k fld fld0))
+                  (Z.to_nat (snd (nth k fls fld0)))
+  | REnd e =>
+      let sa := fst (nth k fls fld0) in
+      let n := fend (nth e L pparam0) (nth e fls fld0) - sa in
+      let da := fst (nth k fld fld0) in
+      (* memmove: all bytes are read before any is written *)
+      (wr_d x da (mread (m_s x) sa (Z.to_nat n)), [ERaw db da (da + n)])
+  end.
+Fixpoint assign_all (mv : bool) (L : list param) (sb db : nat) (fls fld : list (Z * Z)) (x : mm) (ks : list nat)
+  : mm * list ev :=
+  match ks with
+  | [] => (x, [])
+  | k :: ks' =>
+      let '(x1, e1) := assign_one mv L sb db fls fld x k in
+      let '(x2, e2) := assign_all mv L sb db fls fld x1 ks' in
+      (x2, e1 ++ e2)
+  end.
+
+(* target vector [vd] element [i] := source vector [vs] element [j] *)
+Definition ref_assign (mv : bool) (L : list param) (same : bool) (vd : vec) (i : Z) (vs : vec) (j : Z)
+  : vec * vec * list ev :=
+  let fls := vfl L vs j in
+  let fld := vfl L vd i in
+  let '(x, evs) := assign_all mv L (bidn (v_bid vs)) (bidn (v_bid vd)) fls fld
+                     {| m_s := v_mem vs; m_d := v_mem vd; m_same := same |} (seq 0 (length L)) in
+  (set_mem vd (m_d x), set_mem vs (m_s x), evs).
+
+(* object-wise swap of a MANUAL field; only the instrumented type reports it *)
+Fixpoint swap_objs (p : param) (xb yb : nat) (x : mm) (xa ya : Z) (n : nat) : mm * list ev :=
+  match n with
+  | O => (x, [])
+  | S n' =>
+      let sz := Z.to_nat (psz p) in
+      let bx := mread (m_s x) xa sz in
+      let by_ := mread (m_d x) ya sz in
+      let x1 := wr_d (wr_s x xa by_) ya bx in
+      let '(x2, evs) := swap_objs p xb yb x1 (xa + psz p) (ya + psz p) n' in
+      (x2, (match pty p with TTrk => [ESwapO xb xa (psz p) yb ya] | _ => [] end) ++ evs)
+  end.
+
+(* ElementTraits::swap(lhs, rhs): here "s" is lhs and "d" is rhs *)
+Definition swap_one (L : list param) (xb yb : nat) (flx fly : list (Z * Z)) (x : mm) (k : nat) : mm * list ev :=
+  match nth k (runs_swp L) RSkip with
+  | RSkip => (x, [])
+  | RManual =>
+      swap_objs (nth k L pparam0) xb yb x (fst (nth k flx fld0)) (fst (nth k fly fld0))
+                (Z.to_nat (snd (nth k flx fld0)))
+  | REnd e =>
+      let xa := fst (nth k flx fld0) in
+      let n := Z.to_nat (fend (nth e L pparam0) (nth e flx fld0) - xa) in
+      let ya := fst (nth k fly fld0) in
+      let bx := mread (m_s x) xa n in
+      let by_ := mread (m_d x) ya n in
+      (wr_d (wr_s x xa by_) ya bx, [ERaw xb xa (xa + Z.of_nat n); ERaw yb ya (ya + Z.of_nat n)])
+  end.
+Fixpoint swap_all (L : list param) (xb yb : nat) (flx fly : list (Z * Z)) (x : mm) (ks : list nat) : mm * list ev :=
+  match ks with
+  | [] => (x, [])
+  | k :: ks' =>
+      let '(x1, e1) := swap_one L xb yb flx fly x k in
+      let '(x2, e2) := swap_all L xb yb flx fly x1 ks' in
+      (x2, e1 ++ e2)
+  end.
+
+(* swap(va[i], vb[j]): the friend function hands its arguments to ElementTraits::swap in
+   reverse order, so ElementTraits' lhs is vb[j] *)
+Definition ref_swap (L : list param) (same : bool) (va : vec) (i : Z) (vb : vec) (j : Z) : vec * vec * list ev :=
+  let flx := vfl L vb j in
+  let fly := vfl L va i in
+  let '(x, evs) := swap_all L (bidn (v_bid vb)) (bidn (v_bid va)) flx fly
+                     {| m_s := v_mem vb; m_d := v_mem va; m_same := same |} (seq 0 (length L)) in
+  (set_mem va (m_d x), set_mem vb (m_s x), evs).
+
+(* ---------- iterators: a (vector, index) pair (iterator.hpp) ---------- *)
+(* the results of the battery of iterator expressions the harness evaluates for the
+   positions i and j of a vector of size n *)
+Definition b2z (b : bool) : Z := if b then 1 else 0.
+Definition iter_battery (i j n : Z) : list Z :=
+  [ i - j;                                  (* it_i - it_j *)
+    b2z (i =? j); b2z (negb (i =? j)); b2z (i <? j); b2z (i <=? j); b2z (j <? i); b2z (j <=? i);
+    i + (j - i);                            (* (it_i + (j - i)).index() *)
+    j - (j - i);                            (* (it_j - (j - i)).index() *)
+    i + 1; i; i - 1 + 1;                    (* ++it, it++ (old value), --(++it) ... *)
+    n - 0; 0 ].                             (* end() - begin(), begin().index() *)
